@@ -189,7 +189,7 @@ class ParseRunner:
             label = "hang:" + e.kind
             viol = ({"clause": "parse-terminates", "phase": "parse", "family": family, "mode": mode, "how": e.kind},
                     f"parse of {src[:120]!r} in {mode} exceeded the token-stream step budget ({e.detail}; "
-                    f"limit {MON.STALL_LIMIT} calls without advancing / {MON.TOTAL_C}*(chars+1)^2 calls)")
+                    f"limit {MON.STALL_LIMIT} calls without advancing / {MON.TOTAL_C}*(chars+1)^2+{MON.TOTAL_FLOOR} calls)")
         except MON.CaseHang:
             arm(0)
             label = "hang:cpu-backstop"
@@ -410,8 +410,8 @@ class C09(Check):
         "parse: every malformed source of <=k fragments, every sequence of 1..4 pieces of each block tag's "
         "skeleton alphabet (x text between x trailing text), of lexer-level pieces and of `liquid` lines, and "
         "b unterminated nested openers, in STRICT and LAX, each under a token-stream step budget; a parse case is "
-        "non-trivial when its skeleton is unterminated/unbalanced/malformed by the generator's bracket discipline "
-        "(identity = family, piece indices, mode). render: every cycle of 1..3 templates over the link kinds x wrapper "
+        "non-trivial when the source opens at least one tag/output/comment delimiter and (for the tag skeletons) is "
+        "unterminated/unbalanced/malformed by the generator's bracket discipline (identity = family, piece indices, mode). render: every cycle of 1..3 templates over the link kinds x wrapper "
         "kind x b in 0..block_nesting_limit x context_depth_limit set x (mode, api), plus non-recursive nesting at "
         "limit-1/limit/limit+1; a render case is non-trivial when the engine followed at least one link or rendered "
         "the nested body (template loads >= 2, or output produced for the nesting family); identity = (kinds, wrapper, "
@@ -422,7 +422,7 @@ class C09(Check):
         "depth 6 (thread bootstrap 3 frames + 2 harness frames + BoundTemplate.render) in a fresh thread, so the "
         "verdict does not depend on the runner's own stack depth; a real caller is never shallower",
         "termination of parsing is decided by a step budget on TokenStream.next/next_token/__next__/current/peek: "
-        f"<= {MON.STALL_LIMIT} consecutive calls without the position advancing and <= {MON.TOTAL_C}*(chars+1)^2 calls in "
+        f"<= {MON.STALL_LIMIT} consecutive calls without the position advancing and <= {MON.TOTAL_C}*(chars+1)^2+{MON.TOTAL_FLOOR} calls in "
         "total; termination of rendering by a template-load budget of 100*(context_depth_limit+10); CPU-time alarms "
         "(5 s parse, 20 s render; ITIMER_PROF / process_time, so machine load cannot fire them) are backstops only and were never needed on the unchanged tree",
         "a hang inside a C-level regular-expression match could not be interrupted by the backstop (not observed)",
@@ -543,8 +543,9 @@ class C09(Check):
 
     def run_malformed(self, pr: ParseRunner, arm: Any, k: int, f0: int, f1: Optional[int]) -> None:
         for src in self.malformed_sources(k, f0, f1):
+            markup = "{%" in src or "{{" in src
             for mode in ("strict", "lax"):
-                pr.one(arm, "M", src, src, mode)
+                pr.one(arm, "M", src, src, mode, nontrivial=markup)
 
     def run_skeletons(self, pr: ParseRunner, arm: Any, tag: str, first: int) -> None:
         fam = "S:" + tag
@@ -554,9 +555,10 @@ class C09(Check):
 
     def run_lex(self, pr: ParseRunner, arm: Any, n: int, first: int) -> None:
         for ident, src, _ in GEN.lex_skeletons(n, first):
+            markup = "{%" in src or "{{" in src or "{#" in src
             for mode in ("strict", "lax"):
-                pr.one(arm, "X", ident, src, mode, comments=False)
-                pr.one(arm, "Xc", ident, src, mode, comments=True)
+                pr.one(arm, "X", ident, src, mode, comments=False, nontrivial=markup)
+                pr.one(arm, "Xc", ident, src, mode, comments=True, nontrivial=markup)
 
     def run_liquid(self, pr: ParseRunner, arm: Any, n: int, first: int) -> None:
         for ident, src, _ in GEN.liquid_skeletons(n, first):
